@@ -22,21 +22,25 @@ def _worlds(rs):
     Amat = rs.randint(-2, 3, size=(m, n)).astype(float)
     yobs = rs.randint(-3, 4, size=m).astype(float)
 
-    def w3(order):
+    def w3(order, init=None):
         A = LinearModel(Amat)
         d = Gamma(1, 1e-2, name="d"); s = Gamma(1, 1e-2, name="s")
         x = GMRF(np.zeros(n), lambda d: d, name="x")
         y = Gaussian(A, lambda s: 1 / s, name="y")
         byname = {"d": d, "s": s, "x": x, "y": y}
+        for k, v in (init or {}).items():
+            byname[k].init_point = v          # user-chosen starting point stored on the ORIGINAL density (read by legacy Gibbs)
         J = JointDistribution(*[byname[k] for k in order])
         return J, J(y=yobs), byname, {"x": "LinearRTO", "d": "Conjugate", "s": "Conjugate"}
 
-    def w2(order):
+    def w2(order, init=None):
         A = LinearModel(Amat)
         d = Gamma(1, 1e-2, name="d")
         x = Gaussian(np.zeros(n), prec=lambda d: d, name="x")
         y = Gaussian(A, 0.5, name="y")
         byname = {"d": d, "x": x, "y": y}
+        for k, v in (init or {}).items():
+            byname[k].init_point = v
         J = JointDistribution(*[byname[k] for k in order])
         return J, J(y=yobs), byname, {"x": "LinearRTO", "d": "Conjugate"}
     yield "hier3:d,s,x,y", ["d", "s", "x", "y"], w3
@@ -68,11 +72,35 @@ def gibbs_streams(ctx, cuqi, thorough):
     rs = np.random.RandomState(ctx.seed + 41)
     phases = [(2, 3), (0, 4)] if not thorough else [(2, 3), (0, 4), (5, 20), (1, 1)]
     runs, lines = [], []
+    run_no = 0
     for wname, order, mk in _worlds(rs):
         for kind in ("L", "H"):
             for (Nb, Ns) in phases:
-                with quiet():
-                    J, post, byname, strat = mk(order)
+                run_no += 1
+                # every second run: user-supplied starting points (arrays owned by the caller) — on the original densities
+                # (`init_point`, read by legacy Gibbs) resp. on the sampler objects (`initial_point`, HybridGibbs); every
+                # third run an MH block for the hyper-parameter d
+                userinit = (run_no % 2 == 0)
+                mh = (run_no % 3 == 0)
+                user = {"x": np.full(5, 0.25), "d": np.array([7.0])} if userinit else {}
+                user0 = {k: v.copy() for k, v in user.items()}
+
+                def build():
+                    with quiet():
+                        J, post, byname, strat = mk(order, init=(user if kind == "L" else None))
+                    strat = dict(strat)
+                    if mh:
+                        strat["d"] = "MH"
+                    return J, post, byname, strat
+
+                def make_sampler(post, strat):
+                    if kind == "L":
+                        return LS.Gibbs(post, {k: (getattr(LS, v) if v != "MH" else (lambda t_: LS.MH(t_, scale=0.2))) for k, v in strat.items()})
+                    mkx = {"LinearRTO": lambda k: XS.LinearRTO(maxit=8, **({"initial_point": user[k]} if k in user else {})),
+                           "Conjugate": lambda k: XS.Conjugate(**({"initial_point": user[k]} if k in user else {})),
+                           "MH": lambda k: XS.MH(scale=0.2, initial_point=(user[k] if k in user else np.array([1.0])))}
+                    return XS.HybridGibbs(post, {k: mkx[v](k) for k, v in strat.items()})
+                J, post, byname, strat = build()
                 originals = [("joint", J), ("posterior", post)] + list(byname.items())
                 s0 = {lab: c11.snapshot(o) for lab, o in originals}
                 calls = []
@@ -81,16 +109,22 @@ def gibbs_streams(ctx, cuqi, thorough):
                 def rec(self_, *a, **kw):
                     calls.append((self_, len(a), list(kw.keys()), {k: np.array(v, dtype=float).reshape(-1).copy() for k, v in kw.items()}))
                     return orig_cond(self_, *a, **kw)
+
+                def chain_of(smp_):
+                    out = {}
+                    for q in smp_.par_names:
+                        if kind == "L":
+                            out[q] = np.hstack([smp_.samples_warmup[q], smp_.samples[q]]).copy()
+                        else:
+                            out[q] = np.array([np.asarray(v, dtype=float).reshape(-1) for v in smp_.samples[q]]).T.copy()
+                    return out
                 st = np.random.get_state()
                 np.random.seed(ctx.seed + 3)
                 JointDistribution._condition = rec
                 err = None
                 try:
                     with quiet():
-                        if kind == "L":
-                            smp = LS.Gibbs(post, {k: getattr(LS, v) for k, v in strat.items()})
-                        else:
-                            smp = XS.HybridGibbs(post, {k: (XS.LinearRTO(maxit=8) if v == "LinearRTO" else XS.Conjugate()) for k, v in strat.items()})
+                        smp = make_sampler(post, strat)
                         target = smp.target
                         n_ctor = len(calls)
                         JointDistribution._condition = orig_cond
@@ -108,7 +142,8 @@ def gibbs_streams(ctx, cuqi, thorough):
                     JointDistribution._condition = orig_cond
                     np.random.set_state(st)
                 desc = {"world": wname, "sampler": "cuqi.sampler.Gibbs" if kind == "L" else "cuqi.experimental.mcmc.HybridGibbs", "Nb": Nb, "Ns": Ns,
-                        "strategy": strat}
+                        "strategy": strat, "user_starting_points": {k: v.tolist() for k, v in user0.items()},
+                        "where": ("density.init_point" if kind == "L" else "sampler.initial_point") if user0 else None}
                 ctx.case("gibbs-stream:" + ("legacy" if kind == "L" else "hybrid"), desc)
                 if err is not None:
                     ctx.note(f"gibbs stream {wname} {kind}: sampler refused: {type(err).__name__}: {str(err)[:80]}")
@@ -124,6 +159,37 @@ def gibbs_streams(ctx, cuqi, thorough):
                     if d:
                         ctx.fail(key + ":original", {**desc, "original": lab}, "original unchanged", d[:3], f"running the sampler altered the original '{lab}'")
                         break
+                # caller-owned starting-point arrays are not written to
+                for k_, v_ in user.items():
+                    if not np.array_equal(v_, user0[k_]):
+                        ctx.fail(key + ":user-initial-point", {**desc, "array": k_}, user0[k_].tolist(), v_.tolist(),
+                                 f"the sampler run overwrote the starting-point array the user supplied for '{k_}'")
+                        break
+                # a second run from the SAME originals (same seed, a new sampler object) gives the same chain
+                if userinit or mh:
+                    try:
+                        ch1 = chain_of(smp)
+                        st = np.random.get_state()
+                        np.random.seed(ctx.seed + 3)
+                        try:
+                            with quiet():
+                                smp2 = make_sampler(post, strat)
+                                if kind == "L":
+                                    smp2.sample(Ns, Nb)
+                                else:
+                                    if Nb:
+                                        smp2.warmup(Nb)
+                                    smp2.sample(Ns)
+                        finally:
+                            np.random.set_state(st)
+                        ch2 = chain_of(smp2)
+                        badq = [q for q in ch1 if ch1[q].shape != ch2[q].shape or not np.array_equal(ch1[q], ch2[q])]
+                        if badq:
+                            ctx.fail(key + ":second-run", {**desc, "parameters": badq}, "same chain as the first run (same originals, same seed)",
+                                     {q: [ch1[q][:, 0].tolist()[:3], ch2[q][:, 0].tolist()[:3]] for q in badq[:2]},
+                                     "a second sampler run started from the same original objects differs from the first: the first run left a trace in them")
+                    except Exception as e:  # noqa
+                        ctx.note(f"gibbs stream {wname} {kind}: second run refused: {type(e).__name__}: {str(e)[:80]}")
                 # ---- implementation record
                 pars = list(target.get_parameter_names())
                 ctor = [(c[0] is post, c[1], c[2]) for c in calls[:n_ctor] if c[0] is post]
